@@ -221,3 +221,102 @@ Example structure_preserved_padded_ex :
   safe sql ls = false /\
   tscan SCode (splice_pad SCode sql ls) = splice_t_pad (tscan SCode sql) ls.
 Proof. vm_compute. split; reflexivity. Qed.
+
+(** * 4. the code as it is now (values refused as the specification refuses them, every '?' substituted) *)
+Lemma agree_cases_r : forall p,
+  (exists v, py_to_sqlvalue_r p = Some v /\ lit_rel p v) \/ (py_to_sqlvalue_r p = None /\ unbindable p).
+Proof.
+  intros p. unfold lit_rel, unbindable. destruct p as [|z|b|b|s|]; cbn [py_to_sqlvalue_r py_to_sqlvalue spec_literal].
+  - left. exists BNull. split; reflexivity.
+  - destruct (in_i64 z); [|right; split; reflexivity]. left.
+    destruct ((i16_min <=? z) && (z <=? i16_max)); [eexists; split; reflexivity|].
+    destruct ((i32_min <=? z) && (z <=? i32_max)); eexists; split; reflexivity.
+  - left. eexists; split; reflexivity.
+  - destruct (f64_finite b); [left; eexists; split; reflexivity|right; split; reflexivity].
+  - destruct (has_surrogate s); [right; split; reflexivity|left; eexists; split; reflexivity].
+  - right. split; reflexivity.
+Qed.
+
+Lemma convert_cases_r : forall ps,
+  (exists vals, convert_params_r ps = Some vals /\ Forall2 lit_rel ps vals) \/
+  (convert_params_r ps = None /\ Exists unbindable ps).
+Proof.
+  induction ps as [|p ps IH]; cbn [convert_params_r].
+  - left. exists []. split; [reflexivity|constructor].
+  - destruct (agree_cases_r p) as [[v [Hv Hl]]|[Hv Hl]]; rewrite Hv.
+    + destruct IH as [[vals [Hc HF]]|[Hc HE]]; rewrite Hc.
+      * left. exists (v :: vals). split; [reflexivity|]. constructor; assumption.
+      * right. split; [reflexivity|]. now apply Exists_cons_tl.
+    + right. split; [reflexivity|]. now apply Exists_cons_hd.
+Qed.
+
+(** with no '?' in a protected region the code's binder IS the specification binder, for EVERY tuple
+    (the value side condition of [bind_parameters_eq_spec] is gone with the repair) *)
+Theorem bind_now_eq_spec : forall sql ps,
+  count_protected_qm SCode sql = O -> bind_now sql ps = bind_spec sql ps.
+Proof.
+  intros sql ps Hp. unfold bind_now, bind_parameters_v.
+  destruct (convert_cases_r ps) as [[vals [Hc HF]]|[Hc HE]]; rewrite Hc.
+  - destruct (Nat.eqb (count_qm sql) (length ps)) eqn:En.
+    + apply Nat.eqb_eq in En. unfold bind_spec.
+      rewrite (bind_spec_go_ok sql SCode ps vals Hp HF ltac:(lia)).
+      rewrite En, skipn_all. reflexivity.
+    + apply Nat.eqb_neq in En. unfold bind_spec.
+      destruct (Nat.lt_ge_cases (length ps) (count_qm sql)) as [Hlt|Hge].
+      * now rewrite (bind_spec_go_few sql SCode ps Hp Hlt).
+      * rewrite (bind_spec_go_ok sql SCode ps vals Hp HF Hge).
+        destruct (skipn (count_qm sql) ps) eqn:Es; [|reflexivity].
+        assert (Hl : length (skipn (count_qm sql) ps) = O) by now rewrite Es.
+        rewrite skipn_length in Hl. lia.
+  - rewrite (bind_spec_bad sql ps HE). now destruct (Nat.eqb (count_qm sql) (length ps)).
+Qed.
+
+Theorem process_now_eq_spec : forall sql params,
+  (forall ps, params = Some ps -> count_protected_qm SCode sql = O) ->
+  process_now sql params = process_spec sql params.
+Proof.
+  intros sql [ps|] H; [|reflexivity]. cbn [process_now process_v process_spec].
+  now apply bind_now_eq_spec, (H ps).
+Qed.
+
+Example bind_now_eq_spec_ex :
+  bind_now [83; 69; 76; 32; 63; 44; 63] [PInt 9223372036854775808; PFloat 9218868437227405312] = None /\
+  bind_spec [83; 69; 76; 32; 63; 44; 63] [PInt 9223372036854775808; PFloat 9218868437227405312] = None /\
+  bind_now [83; 69; 76; 32; 63] [PInt (-7)] = Some [83; 69; 76; 32; 45; 55].
+Proof. vm_compute. repeat split. Qed.
+
+(** values read back, code as it is now *)
+Lemma py_r_same : forall p, spec_agrees p = true -> py_to_sqlvalue_r p = py_to_sqlvalue p.
+Proof.
+  intros p H. destruct p as [|z|b|b|s|]; cbn [py_to_sqlvalue_r spec_agrees] in *; try reflexivity.
+  - now rewrite H.
+  - rewrite H. reflexivity.
+Qed.
+
+Lemma read_back_now_same : forall p, spec_agrees p = true -> read_back_now p = read_back p.
+Proof. intros p H. unfold read_back_now, read_back. now rewrite (py_r_same p H). Qed.
+
+Theorem value_roundtrip_now : forall v r, py_expected v = Some r -> read_back_now v = Some r.
+Proof.
+  intros v r H. rewrite read_back_now_same; [now apply value_roundtrip_py|].
+  destruct v as [|z|b|b|s|]; cbn [py_expected spec_agrees] in *; try reflexivity; try discriminate.
+  destruct ((i64_min <? z) && (z <=? i64_max)) eqn:E; [|discriminate].
+  apply andb_true_iff in E. destruct E as [E1 E2]. apply Z.ltb_lt in E1. apply Z.leb_le in E2.
+  unfold in_i64. apply andb_true_iff. split; apply Z.leb_le; lia.
+Qed.
+
+(** the two repaired classes, as positive statements: such values are refused, not altered *)
+Theorem big_int_refused : forall z, in_i64 z = false -> py_to_sqlvalue_r (PInt z) = None /\ read_back_now (PInt z) = None.
+Proof. intros z H. unfold read_back_now. cbn [py_to_sqlvalue_r]. rewrite H. split; reflexivity. Qed.
+
+Theorem nonfinite_refused : forall b, f64_finite b = false -> py_to_sqlvalue_r (PFloat b) = None /\ read_back_now (PFloat b) = None.
+Proof. intros b H. unfold read_back_now. cbn [py_to_sqlvalue_r]. rewrite H. split; reflexivity. Qed.
+
+Lemma bind_now_count : forall sql ps t, bind_now sql ps = Some t -> count_qm sql = length ps.
+Proof.
+  intros sql ps t H. unfold bind_now, bind_parameters_v in H.
+  destruct (Nat.eqb (count_qm sql) (length ps)) eqn:E; [now apply Nat.eqb_eq in E|discriminate].
+Qed.
+
+Theorem roundtrip_i64_min_now : read_back_now (PInt i64_min) = Some (RFloat 14114281232179134464).
+Proof. vm_compute. reflexivity. Qed.
